@@ -45,6 +45,49 @@ func c11Scenarios(r *core.Run) []*core.Trace {
 			}
 		}
 	}
+	// one free run of 254 / 255 / 256 pages (the boundary of the compact region encoding) at the
+	// end and in the middle of a bounded file, then reopen: nothing may get lost for allocation
+	for _, run := range []int{254, 255, 256} {
+		for _, atEnd := range []bool{true, false} {
+			run, atEnd := run, atEnd
+			out = append(out, scenario(fmt.Sprintf("c11-run%d-end%v", run, atEnd), txfile.Options{PageSize: uint32(ps), MaxSize: 400 * ps}, true, func(e *fenv.Env) {
+				mustBegin(e, txfile.TxOptions{})
+				ids, err := e.Alloc(300)
+				if err != nil {
+					e.Rollback(false)
+					return
+				}
+				for i, id := range ids {
+					if i%40 == 0 {
+						e.Set(id, 4)
+					}
+				}
+				e.Commit()
+				mustBegin(e, txfile.TxOptions{})
+				from := 300 - run
+				if !atEnd {
+					from = 20
+				}
+				for _, id := range ids[from : from+run] {
+					e.Free(id)
+				}
+				e.Commit()
+				e.ReadAll("r0")
+				if err := e.Reopen(txfile.Options{}); err != nil {
+					panic("reopen failed")
+				}
+				e.ReadAll("r1")
+				// the space is really there: allocate it again
+				mustBegin(e, txfile.TxOptions{})
+				e.Alloc(run)
+				e.Commit()
+				if err := e.Reopen(txfile.Options{}); err != nil {
+					panic("reopen failed")
+				}
+				e.ReadAll("r2")
+			}))
+		}
+	}
 	for _, live := range []int{80, 100} {
 		for _, over := range []int{10, 25} {
 			for _, newMax := range []uint64{64, 70} {
